@@ -31,7 +31,7 @@ def gen_copy_case(tier, seed, k):
         if any(r.name is None for r in exp.rows) or any(c.name is None for c in exp.cols):
             text, exp = iofmt.mps_text(m, rnd)
             lp = False
-        fn = "src.lp" if lp else "src.mps"
+        fn = ("src%d.lp" if lp else "src%d.mps") % k
         files[fn] = text.encode()
         m = exp
         L = ["read_prob p0 @W@/%s %s" % (fn, "LP" if lp else "MPS"), "dumpx p0"]
